@@ -130,6 +130,8 @@ impl<P: Permutation> Group<P> {
 
         if !perms.is_empty() {
             *self = Group::new(&self.identity, &self.generators() | &perms);
+            #[cfg(slotted_egraphs_verif)]
+            crate::verif::event("addsym", 0);
 
             true
         } else {
